@@ -72,3 +72,17 @@ reg("C03", MC, "exhaustive enumeration of a distance/direction/parameter lattice
     "self-consistent wrong kernel cannot hide behind a fit); translation invariance is asserted bitwise on dyadic coordinates; Trend "
     "monomials exactly on integers; CheckerBoard formula; Linear/Cubic bitwise against SciPy.",
     "Python's decimal module is the trusted high-precision evaluator; numba kernels not executable here.", "DESIGN.md section 5, C03")
+reg("C01", MC, "bounded exhaustive enumeration of lattice point sets x frames x exact-interpolator configurations with a conditioning-aware oracle",
+    "All k-subsets of small integer lattices under a family of scale / offset / jitter / array-shape frames, for every exact-interpolator "
+    "configuration and every unit basis data vector (complete for gridders linear in the data), plus a conditioning ladder that walks cond "
+    "from 1e2 to 1e11 and Trend degrees 0..4 on every monomial over all unisolvent subsets, evaluated also outside the data. The bound "
+    "256 cond eps max|data| uses the condition number computed by an independent SVD; ill-conditioned cases are counted, not dropped.",
+    "Small-scope hypothesis on point count (n <= 6; 25 for the tensor lattices of Trend); quick explores the base frame plus 2 seed-selected "
+    "frames, thorough all 32.", "DESIGN.md section 5, C01")
+reg("C02", MC, "bounded exhaustive enumeration of point sets x force layouts x damping x weights x basis data against an independent SVD solver",
+    "verde's fitted predictions are compared at off-data queries with an independently assembled (own kernels, documented monomial order and "
+    "block layout) and independently solved weighted damped least-squares problem in unit-variance column scaling, for every combination of "
+    "a finite menu; two metamorphic relations (weight scaling, vanishing weight == datum removed) on top. Forward-error-aware tolerance "
+    "(cond, residual term, squared cond for the normal-equation path of the damped solver).",
+    "Problems whose error bound exceeds 1e-3 relative, and rank-deficient ones, are counted as not compared; quick rotates through a third / "
+    "sixth of the point subsets by seed (scikit-learn's ~3 ms per fit sets the budget), thorough runs all.", "DESIGN.md section 5, C02")
